@@ -272,6 +272,60 @@ def framing_rules(prog, chk, pid):
     chk.require(ok, P("framing"), fi.qualname, "{U8 len(block), block}* over tlv blocks + additional blocks, then 00; actual_len = len(blob)", where, "length-prefixed blocks closed by a single 00, caller's blocks appended unchanged, declared length = blob length", why)
 
 
+def _traversals(node, name) -> int:
+    """upper bound of how often `name` is traversed on one path through `node` (truth tests, `is None`, len() do not traverse)"""
+    if isinstance(node, list):
+        return sum(_traversals(x, name) for x in node)
+    if isinstance(node, ast.If):
+        return _traversals(node.test, name) + max(_traversals(node.body, name), _traversals(node.orelse, name))
+    if isinstance(node, (ast.For, ast.While)):
+        inner = _traversals(node.body, name) + (_traversals(node.test, name) if isinstance(node, ast.While) else 0)
+        return (_traversals(node.iter, name) if isinstance(node, ast.For) else 0) + (2 * inner) + _traversals(node.orelse, name)
+    if isinstance(node, ast.For):
+        pass
+    if isinstance(node, (ast.ListComp, ast.SetComp, ast.GeneratorExp, ast.DictComp)):
+        n = 0
+        for k, g in enumerate(node.generators):
+            n += _traversals(g.iter, name) * (1 if k == 0 else 2) + 2 * sum(_traversals(c, name) for c in g.ifs)
+        elts = [node.key, node.value] if isinstance(node, ast.DictComp) else [node.elt]
+        return n + 2 * sum(_traversals(e, name) for e in elts)
+    if isinstance(node, ast.Name):
+        return 1 if node.id == name and isinstance(node.ctx, ast.Load) else 0
+    if isinstance(node, ast.Call) and isinstance(node.func, ast.Name) and node.func.id in ("len", "bool", "isinstance", "type", "id") and all(isinstance(a, ast.Name) and a.id == name for a in node.args):
+        return 0
+    if isinstance(node, ast.Compare) and isinstance(node.left, ast.Name) and node.left.id == name and all(isinstance(o, (ast.Is, ast.IsNot)) for o in node.ops):
+        return sum(_traversals(c, name) for c in node.comparators)
+    if isinstance(node, ast.BoolOp) or isinstance(node, ast.UnaryOp) and isinstance(node.op, ast.Not):
+        vals = node.values if isinstance(node, ast.BoolOp) else [node.operand]
+        return sum(0 if isinstance(v, ast.Name) and v.id == name else _traversals(v, name) for v in vals)
+    if isinstance(node, ast.Try):
+        return _traversals(node.body, name) + max([_traversals(h.body, name) for h in node.handlers] + [0]) + _traversals(node.orelse, name) + _traversals(node.finalbody, name)
+    if isinstance(node, (ast.FunctionDef, ast.Lambda, ast.AsyncFunctionDef)):
+        return 2 * sum(_traversals(c, name) for c in ast.iter_child_nodes(node))
+    return sum(_traversals(c, name) for c in ast.iter_child_nodes(node))
+
+
+def single_pass_rule(prog, chk, pid):
+    """the caller's extra blocks are declared as an Iterable: a generator or map object gives its items once, so everything the function does with them has to happen in ONE traversal"""
+    P = lambda s: "%s.%s" % (pid, s)
+    fi = prog.method(BF3 + ".Bf3File", "set_config")
+    name = "additional_tvl_blocks"
+    if name not in fi.params:
+        raise AnalysisError("set_config has no parameter %s" % name)
+    body = fi.node.body
+    n = 0
+    for st in body:
+        # `if param:` at statement level is a truth test, not a traversal
+        if isinstance(st, ast.If) and isinstance(st.test, ast.Name) and st.test.id == name:
+            n += max(_traversals(st.body, name), _traversals(st.orelse, name))
+        else:
+            n += _traversals(st, name)
+    rebound = any(isinstance(x, ast.Name) and x.id == name and isinstance(x.ctx, ast.Store) for x in ast.walk(fi.node))
+    chk.require(n <= 1 or rebound, P("extra-blocks-single-pass"), fi.qualname, "uses of %s that traverse it, along one path" % name, "%s:%d" % (fi.file, fi.lineno),
+                "the extra blocks are traversed at most once (they may come from a generator), so all of them reach the component",
+                "%s is traversed %d times on one path: a one-shot iterable is exhausted by the first traversal and the blocks are silently dropped" % (name, n))
+
+
 def _decode_block(b):
     """decode one TLV block (list of byte terms; control bytes must be constants) into operations"""
     ops = []
@@ -409,6 +463,7 @@ def run(prog, chk, tier):
     part_rules(prog, chk, "C10")
     emptiness_rule(prog, chk, "C10")
     framing_rules(prog, chk, "C10")
+    single_pass_rule(prog, chk, "C10")
     c06.config_component(prog, chk, "C10")
     stackrt.guarded(chk, "C10.tlv-scenarios", tlv_scenarios, prog, chk, "C10", tier)
     chk.assume("keys 0..0xFFFF, value ids 0..0xFE, contents up to 254 bytes as in the property's quantifier")
